@@ -4,7 +4,7 @@
    wrapped explicitly, and [perr] raised where the Go code would dereference nil or loop forever.
    PInv p = Core p /\ wsz p <= pcap p (Proof/PolicyI.v, PolicyO.v). *)
 From Coq Require Import ZArith List Bool Permutation.
-From Verif Require Import Base.Word64 Model.Sketch Model.Policy Proof.PolicyL Proof.PolicyI Proof.PolicyT Proof.PolicyO.
+From Verif Require Import Base.Word64 Model.Sketch Model.Policy Proof.PolicyL Proof.PolicyI Proof.PolicyT Proof.PolicyO Model.DList Proof.DListP.
 Import ListNotations.
 Open Scope Z_scope.
 
@@ -93,3 +93,37 @@ Theorem c07_example :
   PInv p0 /\ ok_run p0 ops /\ wsz p <=? pcap p = true /\ perr p = false /\ map pid (all_items p) = [1].
 Proof. exact L_example. Qed.
 Print Assumptions c07_example.
+
+(* ---- the lists themselves.  The policy model keeps its three regions as Coq lists; the code keeps them as
+   intrusive circular doubly linked lists (internal/list.go).  Model/DList.v is that pointer structure with the
+   very link assignments of insert / remove / move; it is compared with the real List on every run.  For every
+   history of the operations the cache uses (PushFront, PushBack, Remove, MoveToFront, PopTail) on entries that
+   are in / not in the list as the callers guarantee, the pointer structure represents exactly the list the
+   Coq-list operation yields (links consistent in both directions, no entry twice, count = length,
+   len = sum of the policy weights), and a forward traversal reads that list. *)
+Theorem c07_intrusive_list_refines : forall os h l, R h l -> lops_ok l os ->
+  R (fold_left lop_run os h) (fold_left lop_spec os l) /\ dl_forward (fold_left lop_run os h) = fold_left lop_spec os l.
+Proof. exact history_refines. Qed.
+Print Assumptions c07_intrusive_list_refines.
+
+Theorem c07_empty_list_represented : R dl_new [].
+Proof. exact R_new. Qed.
+Print Assumptions c07_empty_list_represented.
+
+Theorem c07_list_traversals : forall h l, R h l ->
+  dl_forward h = l /\ dl_backward h = rev l /\ dl_front h = hd nil_ l /\ dl_back h = last l nil_.
+Proof. exact traversals_R. Qed.
+Print Assumptions c07_list_traversals.
+
+Theorem c07_pop_tail : forall h l, R h l ->
+  match l with
+  | [] => dl_pop_tail h = (h, nil_)
+  | _ => snd (dl_pop_tail h) = last l 0 /\ R (fst (dl_pop_tail h)) (removelast l)
+  end.
+Proof. exact pop_tail_R. Qed.
+Print Assumptions c07_pop_tail.
+
+Example c07_list_example :
+  let h := fold_left lop_run [LPushFront 1 2; LPushFront 2 3; LPushBack 3 1; LMoveToFront 3; LRemove 2; LPopTail] dl_new in
+  (dl_forward h, dl_backward h, dlen h, dcount h) = ([3], [3], 1, 1).
+Proof. exact dlist_example. Qed.
